@@ -47,13 +47,24 @@ open Bump Bump.V
 def layoutArray (c : Cfg) (n : Nat) : Option Rs.Layout :=
   (arrayLayout c.esz c.eal n).map fun sz => ⟨sz, c.eal⟩
 
-/-- the arena behind the vector (`self.a.realloc(..)` / `Alloc::alloc(..)`): whether it serves a request of `bytes` bytes is an
-input of the run (`allocOk`, and the harness allocator's limit) -/
-def arena_serves (c : Cfg) (bytes : Nat) : Option Unit :=
-  if !c.allocOk || decide (bytes > c.allocLimit) then none else some ()
+/-- whether the arena behind the vector serves a request of `bytes` bytes: an input of the run (`allocOk`, and the harness
+allocator's limit) -/
+def arena_serves (c : Cfg) (bytes : Nat) : Bool := c.allocOk && !decide (bytes > c.allocLimit)
 
-/-- `self.ptr = …; self.cap = n`: the buffer now has `n` slots, the first `min old n` carried over by the reallocation -/
-def set_cap (n : Nat) (v : VS) : VS × Outcome Unit := ({ v with cap := n, slots := resizeSlots v.slots n }, .ok ())
+/-- `self.a.realloc(ptr, old_layout, new_size)` / `Alloc::alloc(&mut self.a, new_layout)`: when the arena serves it, the buffer
+now has `new_size / size_of::<T>()` slots, the first `min old new` carried over -/
+def arena_realloc (c : Cfg) (newSize : Nat) (v : VS) : VS × Outcome (Option Unit) :=
+  if arena_serves c newSize then ({ v with slots := resizeSlots v.slots (newSize / c.esz) }, .ok (some ()))
+  else (v, .ok none)
+
+/-- `self.a.dealloc(ptr, layout)`: nothing the vector model sees -/
+def arena_dealloc (v : VS) : VS × Outcome Unit := (v, .ok ())
+
+/-- `self.cap = n` -/
+def set_cap (n : Nat) (v : VS) : VS × Outcome Unit := ({ v with cap := n }, .ok ())
+
+/-- `ptr::write(self, RawVec::new_in(a))`: an unallocated vector in the same arena -/
+def reset_new (v : VS) : VS × Outcome Unit := ({ v with cap := 0, slots := [] }, .ok ())
 
 /-- `reserve_internal(used, extra, fallibility, strategy)`, hand model: an allocation error of the infallible
 flavour is `handle_alloc_error` (a panic), every other error is returned -/
